@@ -14,7 +14,7 @@ from scipy.linalg import norm
 from .bodies import Earth
 from .bodies.third_body import Sun
 from .constants import DEG2RAD, M2KM, PI, SOLAR_FLUX, SPEED_OF_LIGHT
-from .maths import subtendedAngle
+from .maths import safeArccos, subtendedAngle
 from .measurements import getElevation
 from .transforms.methods import spherical2cartesian
 
@@ -97,7 +97,7 @@ def calculateSunVizFraction(tgt_eci_position: ndarray, sun_eci_position: ndarray
     # Montenbruck, Eqs. 3.85 to 3.87
     a = arcsin(Sun.radius / norm(sat_sun_vector))
     b = arcsin(Earth.radius / norm(tgt_eci_position))
-    c = arccos(
+    c = safeArccos(
         dot(-tgt_eci_position, sat_sun_vector) / (norm(tgt_eci_position) * norm(sat_sun_vector)),
     )
 
